@@ -36,10 +36,26 @@ pub struct Sut {
     pub conn: Option<crate::net::Conn>,
     pub store_dyn: Arc<dyn Cache + Send + Sync>,
     pub acc: Vec<u8>,
+    pub max_cap: usize,
 }
 
+pub static PANICS: AtomicU64 = AtomicU64::new(0);
+pub static LAST_PANIC: std::sync::Mutex<String> = std::sync::Mutex::new(String::new());
+
+/// panics (also those inside server tasks on the tokio runtime) are counted, not printed
 pub fn quiet_panics() {
-    std::panic::set_hook(Box::new(|_| {}));
+    std::panic::set_hook(Box::new(|info| {
+        PANICS.fetch_add(1, Ordering::SeqCst);
+        let loc = info.location().map(|l| format!("{}:{}", l.file(), l.line())).unwrap_or_default();
+        let msg = if let Some(s) = info.payload().downcast_ref::<&str>() {
+            s.to_string()
+        } else if let Some(s) = info.payload().downcast_ref::<String>() {
+            s.clone()
+        } else {
+            "?".to_string()
+        };
+        *LAST_PANIC.lock().unwrap() = format!("{} at {}", msg, loc);
+    }));
 }
 
 impl Sut {
@@ -68,6 +84,7 @@ impl Sut {
             conn: None,
             store_dyn,
             acc: vec![],
+            max_cap: 4096,
         }
     }
 
@@ -161,8 +178,42 @@ impl Sut {
 
     /// codec-level stream: append bytes to the caller-owned buffer, decode until need-more / error
     pub fn dec(&mut self, chunk: &[u8]) -> String {
-        self.cbuf.extend_from_slice(chunk);
+        // emulate `stream.read_buf(&mut buffer)`: a read delivers at most the spare capacity; with none
+        // left BytesMut grows by 64 (BufMut::chunk_mut). The chunk therefore arrives in one or more reads,
+        // the decoder running after each, exactly as in read_frame.
         let mut out: Vec<String> = vec![];
+        let mut rest = chunk;
+        let mut first = true;
+        while first || !rest.is_empty() {
+            first = false;
+            if !rest.is_empty() {
+                if self.cbuf.capacity() == self.cbuf.len() {
+                    self.cbuf.reserve(64);
+                }
+                let n = rest.len().min(self.cbuf.capacity() - self.cbuf.len());
+                self.cbuf.extend_from_slice(&rest[..n]);
+                rest = &rest[n..];
+                self.max_cap = self.max_cap.max(self.cbuf.capacity());
+            }
+            let (stop, toks) = self.dec_loop();
+            // keep only the last need-more marker
+            if !rest.is_empty() && !stop {
+                out.extend(toks.into_iter().filter(|t| !t.starts_with('M')));
+            } else {
+                out.extend(toks);
+            }
+            self.max_cap = self.max_cap.max(self.cbuf.capacity());
+            if stop {
+                break;
+            }
+        }
+        format!("dec {}", out.join(" "))
+    }
+
+    /// decode until need-more / error; returns (connection would end, tokens)
+    fn dec_loop(&mut self) -> (bool, Vec<String>) {
+        let mut out: Vec<String> = vec![];
+        let mut stop = false;
         loop {
             let r = {
                 let codec = &mut self.codec;
@@ -172,10 +223,12 @@ impl Sut {
             match r {
                 Err(e) => {
                     out.push(format!("P:{}", panic_text(e).replace(' ', "_")));
+                    stop = true;
                     break;
                 }
                 Ok(Err(_)) => {
                     out.push("E".to_string());
+                    stop = true;
                     break;
                 }
                 Ok(Ok(None)) => {
@@ -187,17 +240,19 @@ impl Sut {
                     Ok(None) => out.push("Fsilent".to_string()),
                     Err(p) => {
                         out.push(format!("P:{}", p.replace(' ', "_")));
+                        stop = true;
                         break;
                     }
                 },
             }
         }
-        format!("dec {}", out.join(" "))
+        (stop, out)
     }
 
     pub fn reset_codec(&mut self) {
         self.codec = MemcacheBinaryCodec::new(self.limit);
         self.cbuf = BytesMut::with_capacity(4096);
+        self.max_cap = 4096;
     }
 
     pub fn records(&self) -> Vec<(Vec<u8>, DumpRec)> {
